@@ -388,7 +388,8 @@ Proof.
     + destruct (size_spec _ _ _ _ _ G v Hv) as (s1 & E & G' & _).
       rewrite E in H. inversion H; subst. now exists rank, rep.
     + rewrite (size_panic _ _ _ _ _ G v) in H by auto. discriminate.
-  - rewrite reset_is_new in H. inversion H; subst. do 2 eexists. apply new_ghost.
+  - unfold reset_call in H. destruct (alloc_overflow m); [discriminate|].
+    rewrite reset_is_new in H. inversion H; subst. do 2 eexists. apply new_ghost.
 Qed.
 
 Lemma reach_inv n es s : reach n es s -> Inv n es s.
